@@ -254,9 +254,12 @@ def run(repo: str, tier: str, seed: int, replay_dir=None, write_ev=True, jobs=No
     hs = hashseeds_for(seed, P["n_hash"])
     pads = [0, 0] + [derive_seed(seed, "pad", i) % 4000 for i in range(len(hs))]
     # every fourth template runs with -O (asserts stripped): the text must not depend on it
-    specs = [(PY312, h, pads[i], 1 if i % 4 == 3 else 0) for i, h in enumerate(hs)]
+    # template 3 runs with -O, 5 with -X dev, 6 with -W error, 7 with -OO (then every 8th likewise): the
+    # text must not depend on interpreter start-up flags
+    flag_of = {3: 1, 5: 2, 6: 3, 7: 4}
+    specs = [(PY312, h, pads[i], flag_of.get(i % 8, 0)) for i, h in enumerate(hs)]
     if P["n_hash311"] and os.path.exists(PY311):
-        specs += [(PY311, h, pads[i], 1 if i % 4 == 3 else 0) for i, h in enumerate(hs[: P["n_hash311"]])]
+        specs += [(PY311, h, pads[i], flag_of.get(i % 8, 0)) for i, h in enumerate(hs[: P["n_hash311"]])]
     n12 = len(hs)
     violations = []   # (doc, signature)
     notes = []
@@ -498,6 +501,8 @@ def run(repo: str, tier: str, seed: int, replay_dir=None, write_ev=True, jobs=No
         # import, other cwd, other argv): [env; conv(p)] for every pool program; the monitors compare
         # the process state after the conversion with what the caller had set
         env_ops = [{"op": "env", "what": "recursionlimit", "value": 5000}, {"op": "env", "what": "recursionlimit", "value": 3000},
+                   {"op": "env", "what": "clock", "value": 40 * 86400.0}, {"op": "env", "what": "gc", "value": "disable"},
+                   {"op": "env", "what": "gc", "value": [1, 1, 1]}, {"op": "env", "what": "pid", "value": 77777},
                    {"op": "env", "what": "chdir", "value": "/usr"}, {"op": "env", "what": "argv", "value": ["oneliner", "-Cunparser=oneliner", "x.py"]}]
         n_env = 0
         for e in env_ops:
@@ -716,7 +721,7 @@ def run(repo: str, tier: str, seed: int, replay_dir=None, write_ev=True, jobs=No
     cov["simulated_time"] = "not applicable: the system has no clock or timer; logical steps are reported instead"
     cov["logical_steps"] = {"traced_line_events_in_abort_ops": cov.pop("_lines", 0), "api_actions": cov.pop("_ops", 0),
                             "conversions_checked_against_reference": cov.pop("_convs", 0)}
-    cov["templates"] = [{"exe": e, "hashseed": h, "heap_pad": p, "python_O": o} for e, h, p, o in specs]
+    cov["templates"] = [{"exe": e, "hashseed": h, "heap_pad": p, "python_flags": " ".join(__import__("sim.coord", fromlist=["PYFLAGS"]).PYFLAGS.get(o, []))} for e, h, p, o in specs]
     cov["real_vs_stub"] = {"real": ["whole oneliner package", "CPython ast/symtable/random"],
                            "simulated": ["order of API calls", "global PRNG state", "PYTHONHASHSEED", "abort instants"],
                            "stubbed": []}
